@@ -210,3 +210,8 @@ EB_EXTREME = {'name': 'extreme-durations', 'crate': 'gneiss-mqtt', 'module_dir':
               'raw_filters': ['verif_bounded::extremes', 'verif_bounded::client::client_extreme', 'verif_bounded::driver_threaded::threaded_driver_survives'],
               'tests': ['extreme_ack_timeouts_never_panic', 'client_extreme_connect_timeout_never_panics', 'threaded_driver_survives_extreme_durations'], 'timeout': 3000}
 PROPS['C11']['eb'].append(EB_EXTREME)
+
+# C15/C07/C01: the client's own packets never survive a disconnection (added after seed C15_5 was missed)
+EB_INTERNAL = {'name': 'internal-ops', 'crate': 'gneiss-mqtt', 'module_dir': 'gneiss_mqtt', 'filters': ['engine::internal_operations'], 'tests': ['internal_operations_never_survive_a_disconnection'], 'timeout': 3000}
+for _p in ('C15', 'C07', 'C01'):
+    PROPS[_p]['eb'].append(EB_INTERNAL)
